@@ -130,7 +130,8 @@ impl Ctx {
                 cur.push(c);
                 chars += 1;
             }
-            cp += stride;
+            // every code point below U+0300 (all controls, Latin-1, the escape-relevant ASCII), strided above
+        cp += if cp < 0x300 { 1 } else { stride };
             if cur.chars().count() >= 1000 || cp > 0x10ffff {
                 let field = fields[docs % fields.len()];
                 let (o, same) = self.check_doc(&doc_with(field, &cur));
